@@ -42,11 +42,19 @@ def main():
                 sh(["git", "checkout", "--", "."], cwd=REPO)
                 print(f"{sid}: merged patch does not build"); continue
         t = time.time()
+        # the evidence file and the regenerated facts describe the UNCHANGED tree: what a run against a
+        # seeded change writes there is put back afterwards
+        ev_p = os.path.join(VERIF, "evidence", prop + ".json")
+        facts_p = os.path.join(VERIF, "lean", "SfwModel", "Generated", "Facts.lean")
+        saved = {p: (open(p).read() if os.path.exists(p) else None) for p in (ev_p, facts_p)}
         try:
             rc, out = sh([os.path.join(VERIF, "check"), prop, "--tier", "quick"], cwd=VERIF)
         finally:
             sh(["git", "checkout", "--", "."], cwd=REPO)
             sh(["git", "clean", "-fdq", "--", "pkg", "internal", "cmd"], cwd=REPO)
+            for p, txt in saved.items():
+                if txt is not None:
+                    open(p, "w").write(txt)
         viols = re.findall(r"^VIOLATION .*$", out, re.M)
         classes = re.findall(r"^\s+class=(\S+)", out, re.M)
         concrete = [v for v in viols if not v.endswith("no-failing-input-found")]
